@@ -55,6 +55,7 @@ type ItemResult struct {
 	Asserts    map[string]int `json:"asserts"`
 	KnownHit   map[string]int `json:"known_hit"`
 	Violations []Violation    `json:"violations"`
+	Witnesses  []Violation    `json:"witnesses"`
 	Funcs      map[string]int `json:"funcs"`
 	Queries    int            `json:"queries"`
 	Unknown    int            `json:"unknown"`
@@ -249,6 +250,7 @@ func runItem(prog *ssa.Program, it PlanItem, plan *Plan, known map[string]bool, 
 	res := RunHarness(prog, fn, it.Fn, cfg)
 	r.Paths, r.Outcomes, r.Sites, r.Covers, r.Asserts, r.KnownHit = res.Paths, res.Outcomes, res.Sites, res.Covers, res.Asserts, res.KnownHit
 	r.Violations, r.Funcs, r.Queries, r.Unknown = res.Viol, res.Funcs, res.Queries, res.Unknown
+	r.Witnesses = res.Witnesses
 	r.SolverS, r.MaxQueryS, r.WallS, r.Merged, r.Truncated, r.Samples = res.SolverTime.Seconds(), res.MaxQuery.Seconds(), res.Wall.Seconds(), res.Merged, res.Truncated, res.Samples
 	for _, c := range it.Covers {
 		if res.Covers[c] == 0 {
